@@ -34,7 +34,8 @@ DIMS = [
     ('cls', ['builtin', 'keyerr', 'dotted', 'moduser', 'docuser', 'os']),
     ('msg', ['plain', 'empty', 'multi', 'colon', 'dots', 'num', 'noted']),
     ('src', ['raise', 'call', 'helper', 'noraise']),
-    ('want', ['none', 'exact', 'stack', 'dotstack', 'wrongmsg', 'wrongtype', 'header', 'nontb', 'ellmsg', 'nameonly']),
+    ('want', ['none', 'exact', 'stack', 'dotstack', 'wrongmsg', 'wrongtype', 'header', 'nontb', 'ellmsg', 'nameonly',
+              'indented', 'indented_wrongmsg']),
     ('flags', [(), ('+IGNORE_EXCEPTION_DETAIL',), ('-ELLIPSIS',), ('+IGNORE_EXCEPTION_DETAIL', '-ELLIPSIS'),
                ('+IGNORE_WANT',)]),
     ('pos', ['only', 'middle', 'last']),
@@ -108,7 +109,9 @@ def build(cfg):
         w = [HDR, '  File "<stdin>", line 1, in <module>', '    foo()'] + excline_.split('\n')
     elif want == 'dotstack':
         w = [HDR, '    ...'] + excline_.split('\n')
-    elif want == 'wrongmsg':
+    elif want == 'indented':          # the whole block sits 4 columns right of the prompt (legal: only a dedent ends a want)
+        w = [HDR] + excline_.split('\n')
+    elif want in ('wrongmsg', 'indented_wrongmsg'):
         w = [HDR, tname + ': other text']
     elif want == 'wrongtype':
         w = [HDR] + ('Zork' + excline_).split('\n')
@@ -125,7 +128,7 @@ def build(cfg):
     if w and any(not l.strip() for l in w):
         return None
     if w:
-        lines += w
+        lines += [('    ' + l) for l in w] if want.startswith('indented') else w
     post = []
     if pos != 'last':
         lines.append('>>> T(9)')
@@ -149,7 +152,7 @@ def build(cfg):
             w1 = wmsg.split('\n')[0].split(':')[0].split('.')[-1]
             m = matchref.matches(g1, w1, fd)
         exp = ('pass',) if m else ('mismatch', etype)
-    if '+IGNORE_WANT' in fl and src != 'noraise' and want in ('wrongmsg', 'wrongtype', 'nameonly', 'ellmsg'):
+    if '+IGNORE_WANT' in fl and src != 'noraise' and want in ('wrongmsg', 'wrongtype', 'nameonly', 'ellmsg', 'indented_wrongmsg'):
         exp = ('unspec',)       # DESIGN 3.1: IGNORE_WANT together with a wrong traceback
     return {'text': '\n'.join(lines), 'exp': exp, 'pre': pre, 'post': post, 'etype': etype}
 
